@@ -89,7 +89,7 @@ func Profiles() map[string]*Profile {
 		Judge:     []string{"open", "reopen"},
 		AuditMode: "visit", MaxStores: 2, AllowMem: false, MinOps: 10, MaxOps: 80, LongRunP: 0.03, LongOps: 600,
 		MaxColls: 3, MaxKeys: 24, CBChoices: allCB, CustomCmp: true, Nested: true, CheckWrites: true, ROHandleP: 0.2, AdvValues: true, PrioModes: []int{0, 1, 4}})
-	add(&Profile{Name: "C10", CheckPins: true, Weights: mergeW(mergeW(baseWeights(), snapW), map[string]float64{"faultymut": 0.8, "faultyflush": 0.6, "flush": 3, "reopen": 1.2, "visit": 4, "iter": 1, "setcoll": 1, "rmcoll": 0.5, "close": 0.3, "burst": 2, "audit": 3, "snaprevert": 0.2, "copyto": 0.2}),
+	add(&Profile{Name: "C10", CheckPins: true, Weights: mergeW(mergeW(baseWeights(), snapW), map[string]float64{"write": 0.4, "faultymut": 0.8, "faultyflush": 0.6, "flush": 3, "reopen": 1.2, "visit": 4, "iter": 1, "setcoll": 1, "rmcoll": 0.5, "close": 0.3, "burst": 2, "audit": 3, "snaprevert": 0.2, "copyto": 0.2}),
 		AuditMode: "visit", MaxStores: 3, AllowMem: true, MinOps: 10, MaxOps: 80, LongRunP: 0.03, LongOps: 600,
 		MaxColls: 3, MaxKeys: 24, CBChoices: []int{0, 0, CBAlloc}, CustomCmp: true, Nested: true, CheckFree: true, PrioModes: []int{0, 1, 2, 4}})
 	add(&Profile{Name: "C11", Weights: mergeW(mergeW(baseWeights(), snapW), map[string]float64{"fill": 0.3, "setcolls": 0.004, "copyto": 3, "setcoll": 0.4, "rmcoll": 0.2, "evict": 3, "snapwrite": 0, "snaprevert": 0}),
@@ -109,12 +109,12 @@ func Profiles() map[string]*Profile {
 		Judge:     []string{"flush", "copyto", "open", "reopen"},
 		AuditMode: "visit", MaxStores: 1, MinOps: 8, MaxOps: 70, LongRunP: 0.03, LongOps: 600,
 		MaxColls: 5, MaxKeys: 30, CBChoices: allCB, CustomCmp: true, BigValues: true, CheckDecode: true, CheckStruct: true, PrioModes: []int{0, 1, 2, 3, 4}})
-	add(&Profile{Name: "C15", Weights: mergeW(mergeW(baseWeights(), snapW), map[string]float64{"reopen": 1.2, "visit": 3, "iter": 1, "len": 1, "blockvisit": 0.5, "randvisit": 0.5, "setcoll": 0.3, "rmcoll": 0.4, "close": 0.2, "evict": 3, "snapwrite": 0, "snaprevert": 0.2, "copyto": 0.2}),
+	add(&Profile{Name: "C15", Weights: mergeW(mergeW(baseWeights(), snapW), map[string]float64{"write": 0.4, "reopen": 1.2, "visit": 3, "iter": 1, "len": 1, "blockvisit": 0.5, "randvisit": 0.5, "setcoll": 0.3, "rmcoll": 0.4, "close": 0.2, "evict": 3, "snapwrite": 0, "snaprevert": 0.2, "copyto": 0.2}),
 		Judge:     []string{},
 		AuditMode: "visit", MaxStores: 2, AllowMem: true, MinOps: 6, MaxOps: 60, LongRunP: 0.02, LongOps: 400,
 		MaxColls: 3, MaxKeys: 20, CBChoices: []int{CBRef, CBAlloc | CBRef, CBAll, CBAlloc | CBRef | CBAfterRead | CBBeforeWrite}, CustomCmp: true, Nested: true,
 		CheckLedger: true, Final: []string{"releaseall"}, PrioModes: []int{0, 1, 4}})
-	add(&Profile{Name: "C18", CheckPins: true, Weights: mergeW(baseWeights(), map[string]float64{"faultyvisit": 1.5, "reopen": 1.5, "iter": 8, "visit": 5, "snapshot": 0.5, "snapclose": 0.3, "evict": 2, "audit": 0.3}),
+	add(&Profile{Name: "C18", CheckPins: true, Weights: mergeW(baseWeights(), map[string]float64{"write": 0.4, "faultyvisit": 1.5, "reopen": 1.5, "iter": 8, "visit": 5, "snapshot": 0.5, "snapclose": 0.3, "evict": 2, "audit": 0.3}),
 		Judge:     []string{"iter", "visit"},
 		AuditMode: "visit", MaxStores: 1, AllowMem: true, MemOnlyP: 0.3, MinOps: 6, MaxOps: 50, LongRunP: 0.02, LongOps: 300,
 		MaxColls: 2, MaxKeys: 30, CBChoices: []int{0, 0, CBAll}, CustomCmp: true, Nested: true, PrioModes: []int{0, 1, 4}})
